@@ -350,13 +350,26 @@ class HashSeedEngine(Engine):
                 genes.append({"name": f"r{r}g{g}", "parts": [[pos, pos + size]], "strand": rng.choice([1, -1])})
                 pos += size + rng.choice([0, 30, 300])
                 g += 1
-            records.append({"id": f"REC{r}", "seq": seq, "circular": rng.random() < 0.4, "genes": genes})
+            circular = rng.random() < 0.4
+            if circular and genes and rng.random() < 0.5:
+                # a gene spanning the origin (the first gene starts at >= 0 and the last one ends before the end)
+                upper = rng.choice([300, 600])
+                lower = rng.choice([300, 600, 900])
+                last_end = max(g["parts"][0][1] for g in genes)
+                first_start = min(g["parts"][0][0] for g in genes)
+                if last_end <= length - upper and first_start >= lower:
+                    strand = rng.choice([1, -1])
+                    parts = [[length - upper, length], [0, lower]]
+                    if strand == -1:
+                        parts.reverse()
+                    genes.append({"name": f"r{r}x", "parts": parts, "strand": strand})
+            records.append({"id": f"REC{r}", "seq": seq, "circular": circular, "genes": genes})
             for _ in range(rng.randint(1, 4)):
                 combo = rng.choice(combos)
                 targets = [rng.choice(genes)] if rng.random() < 0.6 else rng.sample(genes, min(len(genes), len(combo)))
                 for j, profile in enumerate(combo):
                     gene = targets[j % len(targets)]
-                    aa = (gene["parts"][0][1] - gene["parts"][0][0]) // 3
+                    aa = sum(e - b for b, e in gene["parts"]) // 3
                     start = rng.choice([1, 1, 30])
                     hits.append({"cds": gene["name"], "profile": profile, "bitscore": rng.choice([600, 600, 800]),
                                  "evalue": 1e-30, "start": start, "end": min(aa - 1, start + rng.choice([40, 60])),
@@ -412,7 +425,7 @@ class HashSeedEngine(Engine):
             names = sorted(PFAM_PROFILES)
             for record in (records if rng.random() < 0.75 else []):    # sometimes a search without a single hit
                 for gene in record["genes"]:
-                    aa = (gene["parts"][0][1] - gene["parts"][0][0]) // 3
+                    aa = sum(e - b for b, e in gene["parts"]) // 3
                     for _ in range(rng.choice([0, 1, 1, 2, 3])):
                         start = rng.choice([2, 10, 10, 40])
                         end = start + rng.choice([30, 30, 45])
